@@ -78,6 +78,12 @@ func NewResponseFilterWriter(filters []ResponseFilter, gz *gzipResponseWriter) *
 // WriteHeader wraps underlying WriteHeader method and
 // compresses if filters are satisfied.
 func (r *ResponseFilterWriter) WriteHeader(code int) {
+	if code < 100 || code > 999 {
+		// net/http refuses such a status by panicking: nothing is sent, and
+		// whether to compress is decided with the response that follows
+		r.ResponseWriter.WriteHeader(code)
+		return
+	}
 	if isInformational(code) {
 		// whether to compress is decided with the final header
 		r.ResponseWriter.WriteHeader(code)
